@@ -862,7 +862,7 @@ def run_contained(jobs):
         done = {}
         # a few blocks per worker (interleaved): one pipe round trip per block, not per sub-tree
         nb = max(1, min(len(items), pool.NPROC * 4))
-        for item, r in pool.pmap(_work, [items[k::nb] for k in range(nb)]):
+        for item, r in pool.pmap(_work, [items[k::nb] for k in range(nb)], item_timeout=3600):
             if isinstance(r, pool.WorkerError):
                 raise InfraError(r.tb)
             if isinstance(r, pool.Crash):
@@ -927,15 +927,19 @@ def _passes(quick):
         ]
     F = "full"
     return [
-        ("d5-unmerged", [(m,) for m in BASE_MODES + ("ool-handle",)], 5, 5, 2, 5),
-        ("d8", [(m,) for m in BASE_MODES + ("ool-handle",)], 8, 3, 1, 3),
-        ("vars-d5", [(m, "vars", F) for m in io + hh], 5, 3, 1, 4),
-        ("kinds-d4", [(m, k, F) for k in sorted(KINDS) for m in io], 4, 3, 1, 4),
+        ("d5-unmerged", [(m,) for m in BASE_MODES], 5, 5, 2, 3),
+        ("ool-handle-d4-unmerged", [("ool-handle",)], 4, 4, 1, 4),
+        # the dealloc probe after every distinct state up to depth 5 (here: distinct by key() beyond depth 3)
+        ("d8", [(m,) for m in BASE_MODES + ("ool-handle",)], 8, 3, 1, 5),
+        ("vars-d5", [(m, "vars", F) for m in io], 5, 2, 1, 4),
+        ("vars-handle-d4", [(m, "vars", F) for m in hh], 4, 2, 1, 4),
+        ("kinds-d4", [(m, k, F) for k in sorted(KINDS) for m in io], 4, 2, 1, 4),
         ("kinds-handle-d3", [(m, k, F) for k in sorted(KINDS) for m in hh], 3, 3, 1, 3),
-        ("twin-d5", [(m, "twin", F) for m in io + hh], 5, 3, 1, 4),
+        ("twin-d5", [(m, "twin", F) for m in io], 5, 2, 1, 4),
+        ("twin-handle-d4", [(m, "twin", F) for m in hh], 4, 2, 1, 4),
         ("cdef-more-d6", [("inline", "cdef-more", F)], 6, 3, 1, 4),
         ("none-d6", [("inline-none",), ("ool-none",)], 6, 4, 1, 0),
-        ("flags-lg-d5", [(m, "flags-lg", F) for m in io], 5, 3, 1, 4),
+        ("flags-lg-d5", [(m, "flags-lg", F) for m in io], 5, 2, 1, 4),
         ("flags-nodelete-d3", [(m, "flags-nodelete", F) for m in io], 3, 3, 1, 3),
     ]
 
